@@ -137,10 +137,10 @@ def verify (k : Kind) (c : Cfg) : Bool :=
       decide (Facts.minBucketSize ≤ c.bucketSize ∧ c.bucketSize ≤ Facts.maxBucketSize)
   | .GSAP =>
     bufVerify c && decide (2 ≤ c.minMatchLen) && decide (c.minMatchLen ≤ c.windowSize) &&
-      decide (c.windowSize ≤ Facts.maxInt32)
+      decide (c.windowSize ≤ Facts.maxInt32) && decide (c.bufferSize ≤ Facts.maxInt32)
   | .OSAP =>
     bufVerify c && decide (2 ≤ c.minMatchLen ∧ c.minMatchLen ≤ c.maxMatchLen) &&
-      decide (c.cost = Facts.defCost)
+      decide (c.cost = Facts.defCost) && decide (c.bufferSize ≤ Facts.maxInt32)
 
 /-- `NewParser` succeeds iff the defaults-completed configuration verifies -/
 def accepted (k : Kind) (c : Cfg) : Bool := verify k (setDefaults k (c.restrict k))
